@@ -2,6 +2,7 @@
    i.e. values computed by the compiled code itself).  Do not edit. -/
 namespace Refinery.Gen.Settings
 
+def cmdenv_fallback_chains := ["HoneycombLogger.APIKey=HoneycombLoggerAPIKey>HoneycombAPIKey", "OTelMetrics.APIKey=OTelMetricsAPIKey>HoneycombAPIKey", "OTelTracing.APIKey=OTelTracesAPIKey>HoneycombAPIKey"]
 def cmdenv_list_settings := ["RedisPeerManagement.ClusterHosts"]
 def settings_cmdenv : Int := 21
 def settings_cmdenv_multi : Int := 3
